@@ -16,6 +16,12 @@
 //	  white space around the 1024-byte limits (ASCII and Unicode, with and without
 //	  foreign data behind it).
 //
+//	source kinds: the armored output of every encode length (LF and CR LF) and a
+//	  thinned part of the decode texts (all sequences of 0..3 lines, all single
+//	  edits of one armor) are also read through every kind of reader a caller
+//	  may hold the text in (kinds.go: ax.SourceKinds plus bufio.Readers of
+//	  16..512 bytes); the verdict must not depend on the kind.
+//
 // Oracle: see oracle.go (inverse; acceptance = refage.Dearmor; canonical form
 // armor(dearmor(t)) == normalise(t); typed rejections).
 package main
@@ -39,6 +45,7 @@ func main() {
 		"line sequences are exhaustive only up to the stated number of lines and over the stated line alphabet; longer inputs are covered by mutation of valid armor up to 260 bytes of payload and by the encode sweep up to 64 KiB+1 (thorough 192 KiB+1)",
 		"the 1024-byte white-space limits are not part of the property: a text that is canonical armor except for more white space than the limits may be accepted or rejected",
 		"non-ASCII Unicode white space before BEGIN / after END may be accepted (generous reading) or rejected; it is judged on its ASCII folding",
+		"kinds of source reader: those listed under coverage.source_kinds; each must have run at least 1000 (thorough 3000) valid and as many invalid texts or the run is inconclusive",
 		"the source reader never fails and never returns (0, nil) (I/O faults are C13's subject)",
 		"acceptance oracle: refage.Dearmor, validated at start-up against the CCTV vectors",
 	}
@@ -101,6 +108,8 @@ func main() {
 			runTexts(r, c, cases, "random_mutants")
 		}
 	})
+
+	r.Guard("source-kinds", func() { runKinds(r, c) })
 
 	c.report()
 	r.Finish()
